@@ -635,11 +635,21 @@ impl<'a, 'b> Session<'a, 'b> {
                 RealItem::Panic(p)
             }
         };
+        let mut item = item;
         let vars = if self.dead || NEVER_CALL_VARS.with(|c| c.get()) {
             None
         } else {
             let it = &self.it;
-            guarded(|| it.vars().into_iter().collect::<BTreeMap<_, _>>()).ok()
+            // vars() is called after every step - after rows, error items and the end alike; a
+            // panic in it is a panic of the run
+            match guarded(|| it.vars().into_iter().collect::<BTreeMap<_, _>>()) {
+                Ok(v) => Some(v),
+                Err(p) => {
+                    self.dead = true;
+                    item = RealItem::Panic(p);
+                    None
+                }
+            }
         };
         RealStep {
             item,
@@ -725,6 +735,9 @@ pub enum Consume {
     Count(usize),
     /// m plain `next()`s, then `by_ref().last()`
     Last(usize),
+    /// m plain `next()`s, then the rest through `collect::<Vec<_>>()` (0), `for_each` (1),
+    /// `fold` (2), `find(|_| false)` i.e. `try_fold` (3), `filter(..)` + `map(..)` chain (4)
+    Bulk(usize, u8),
 }
 
 pub struct Consumed {
@@ -790,6 +803,46 @@ pub fn run_bound_consume(
                 for r in it.by_ref().step_by(*step).take(cap) {
                     out.items.push((n * step, conv(Some(r))));
                     n += 1;
+                }
+            }
+            Consume::Bulk(m, kind) => {
+                let mut ended = false;
+                for _ in 0..*m {
+                    let item = conv(it.next());
+                    ended = item == RealItem::End;
+                    out.items.push((idx, item));
+                    if ended {
+                        break;
+                    }
+                    idx += 1;
+                }
+                if !ended {
+                    let mut rest: Vec<RealItem> = vec![];
+                    match kind {
+                        0 => rest = it.by_ref().collect::<Vec<_>>().into_iter().map(|r| conv(Some(r))).collect(),
+                        1 => it.by_ref().for_each(|r| rest.push(conv(Some(r)))),
+                        2 => {
+                            rest = it.by_ref().fold(vec![], |mut v, r| {
+                                v.push(conv(Some(r)));
+                                v
+                            })
+                        }
+                        3 => {
+                            let _ = it.by_ref().find(|r| {
+                                rest.push(match r {
+                                    Ok(row) => RealItem::Row(conv_row(tc, row)),
+                                    Err(e) => RealItem::ErrRuntime(err_chain(e)),
+                                });
+                                false
+                            });
+                        }
+                        _ => rest = it.by_ref().filter(|_| true).map(|r| conv(Some(r))).collect(),
+                    }
+                    for item in rest {
+                        out.items.push((idx, item));
+                        idx += 1;
+                    }
+                    out.items.push((idx, conv(it.next())));
                 }
             }
             Consume::Count(m) | Consume::Last(m) => {
